@@ -489,13 +489,17 @@ class DSession:
                                            ready_operations_filter=names)
             return solver(self.instance)
 
+        import time as _time
+        t0 = _time.perf_counter()
         out, sch = _outcome(go)
+        wall = _time.perf_counter() - t0
         ev = {"a": "SolverCall", "rule": rule, "chooser": chooser, "sfilt": list(filt or []), "out": out,
-              "sched": [], "elapsed_sign": 0, "solved_by": ""}
+              "sched": [], "elapsed_sign": 0, "solved_by": "", "elapsed_le_wall": True}
         if out == "ok":
             el = sch.metadata.get("elapsed_time")
             ev.update({"sched": model.project_schedule(sch),
                        "elapsed_sign": (-2 if not isinstance(el, (int, float)) else (el > 0) - (el < 0)),
+                       "elapsed_le_wall": bool(isinstance(el, (int, float)) and el <= wall + 0.05),
                        "solved_by": str(sch.metadata.get("solved_by"))})
         self._ev(ev)
 
